@@ -44,7 +44,10 @@ def obligations(tier):
         shapes.append({"prefix": "", "n": 3, "sep1": "", "spelling": "b", "sep2": "", "num": True})
         shapes.append({"prefix": "v", "n": 2, "sep1": "", "spelling": "", "sep2": "", "num": False, "implicit_post": True})
         shapes.append({"prefix": "", "n": 2, "sep1": "", "spelling": "", "sep2": "", "num": False, "lead0": True})
+        shapes.append({"prefix": "v", "n": 2, "sep1": "", "spelling": "rc", "sep2": "", "num": True, "epoch": True})
     else:
+        shapes.append({"prefix": "", "n": 3, "sep1": "-", "spelling": "beta", "sep2": "", "num": True, "epoch": True})
+        shapes.append({"prefix": "v", "n": 2, "sep1": "", "spelling": "", "sep2": "", "num": False, "epoch": True})
         k = 0
         for sp, sep1, sep2, num in itertools.product(ALL_SPELLINGS, ("", "-", "_", "."), ("", "-", "_", "."), (True, False)):
             if not num and sep2:
@@ -56,7 +59,7 @@ def obligations(tier):
         shapes.append({"prefix": "", "n": 3, "sep1": "", "spelling": "", "sep2": "", "num": False, "lead0": True})
     for sh in shapes:
         label = f"{sh['prefix']}{'.'.join('abc'[:sh['n']])}{sh['sep1']}{sh['spelling']}{sh['sep2']}{'N' if sh['num'] else ''}" \
-                + ("-N" if sh.get("implicit_post") else "") + (" lead0" if sh.get("lead0") else "")
+                + ("-N" if sh.get("implicit_post") else "") + (" lead0" if sh.get("lead0") else "") + (" epoch E!" if sh.get("epoch") else "")
         obs.append(Ob(f"L3.version_text[{label}]", "c16.py", "version_text", {"shape": sh, "hi": hi}, timeout=t))
     for ch in ("q", "w", "_", "/", "x", "~") if tier != "quick" else ("q", "_", "~"):
         obs.append(Ob(f"L4.legacy_not_pep440[vYYYY{ch}Q.BUILD]", "c16.py", "legacy_not_pep440", {"ch": ch}, timeout=t))
